@@ -170,9 +170,9 @@ func c09Payload(c *Ctx, p *Prog) {
 		}
 		return sortedKeys(set)
 	}
-	ws := callers("tScreen).writeString")
+	ws := payloadWriterCallers(p)
 	okWS := len(ws) == 2 && ws[0] == "Beep" && ws[1] == "drawCell"
-	c.Check(okWS, "C09-R4", "writeString:callers", "-", fmt.Sprintf("callers of writeString: %v (payload writer drawCell and the bell only)", ws))
+	c.Check(okWS, "C09-R4", "writeString:callers", "-", fmt.Sprintf("callers of writeString: %v (payload writer drawCell and the bell only; not counted: wrappers that write one expanded capability %v)", ws, textEmitterNames(p)))
 	er := callers("tScreen).encodeRune")
 	c.Check(len(er) == 1 && er[0] == "drawCell", "C09-R4", "encodeRune:callers", "-", fmt.Sprintf("callers of encodeRune: %v", er))
 	// the runes handed to encodeRune in drawCell come from GetContent
@@ -268,20 +268,7 @@ func classifyEmit(p *Prog, v ssa.Value, depth int) []emitSrc {
 	case *ssa.Call:
 		n := calleeName(&x.Call)
 		if strings.HasSuffix(n, "Terminfo).TParm") && len(x.Call.Args) == 3 {
-			cnt, vals, ok := varargCount(x.Call.Args[2])
-			if !ok {
-				return []emitSrc{{kind: "unknown", unknown: "TParm with non-literal arguments"}}
-			}
-			kinds := make([]string, cnt)
-			for i := range kinds {
-				kinds[i] = argKind(vals[i])
-			}
-			inner := classifyEmit(p, x.Call.Args[1], depth+1)
-			for i := range inner {
-				inner[i].tparm = true
-				inner[i].kinds = kinds
-			}
-			return inner
+			return classifyExpansion(p, x.Call.Args[1], x.Call.Args[2], depth)
 		}
 		if strings.HasSuffix(n, "Terminfo).TGoto") {
 			return []emitSrc{{kind: "field", name: "SetCursor", tparm: true, kinds: []string{"int", "int"}}}
@@ -295,10 +282,43 @@ func classifyEmit(p *Prog, v ssa.Value, depth int) []emitSrc {
 	return []emitSrc{{kind: "unknown", unknown: valName(v)}}
 }
 
+// classifyExpansion: TParm(tmpl, args...) (directly or through a text-emitter wrapper).
+func classifyExpansion(p *Prog, tmpl, varArg ssa.Value, depth int) []emitSrc {
+	cnt, vals, ok := varargCount(varArg)
+	if !ok {
+		return []emitSrc{{kind: "unknown", unknown: "TParm with non-literal arguments"}}
+	}
+	kinds := make([]string, cnt)
+	for i := range kinds {
+		kinds[i] = argKind(vals[i])
+	}
+	inner := classifyEmit(p, tmpl, depth+1)
+	for i := range inner {
+		inner[i].tparm = true
+		inner[i].kinds = kinds
+	}
+	return inner
+}
+
 type emitSite struct {
 	fn   *ssa.Function
 	in   ssa.Instruction
 	srcs []emitSrc
+}
+
+// payloadWriterCallers: the functions that call the raw writer, except the recognised text-emitter
+// wrappers (which hand it exactly one TParm expansion and nothing else).
+func payloadWriterCallers(p *Prog) []string {
+	set := map[string]bool{}
+	for _, fn := range p.modFns {
+		if fn.Pkg != p.Tcell || textEmitters(p)[fn] {
+			continue
+		}
+		for range callsIn(fn, func(n string, _ *ssa.CallCommon) bool { return strings.HasSuffix(n, "tScreen).writeString") }) {
+			set[fn.Name()] = true
+		}
+	}
+	return sortedKeys(set)
 }
 
 func emissionSites(p *Prog) []emitSite {
@@ -318,8 +338,18 @@ func emissionSites(p *Prog) []emitSite {
 			return strings.HasSuffix(n, "tScreen).TPuts") || strings.HasSuffix(n, "tScreen).writeString")
 		}) {
 			cc := callCommon(call)
+			if textEmitters(p)[fn] {
+				// the wrapper's own write: what it writes is decided at its call sites
+				out = append(out, emitSite{fn, call, []emitSrc{{kind: "param", name: fn.Params[len(fn.Params)-2].Name()}}})
+				continue
+			}
 			out = append(out, emitSite{fn, call, classifyEmit(p, cc.Args[1], 0)})
 		}
+		eachInstr(fn, func(in ssa.Instruction) {
+			if capArg, varArg, ok := textEmitterCall(p, in); ok {
+				out = append(out, emitSite{fn, in, classifyExpansion(p, capArg, varArg, 0)})
+			}
+		})
 	}
 	return out
 }
